@@ -143,6 +143,9 @@ def post(S):
 
     cfgs = gridrun.quick_set() if S.tier == "quick" else gridrun.thorough_set()
     cfgs = cfgs + [circ_cfg(100, y_boundary_guards=2), circ_cfg(100, y_boundary_guards=0)]
+    # optional post-processing of the curvature, with and without a toroidal field (the shipped
+    # example has none: two curvature components are then identically zero)
+    cfgs += [gb.cfg("lsn", dict(orthogonal=True), fpol="const", label="lsn-orth-noBt (as the shipped example)"), gb.cfg("lsn", dict(orthogonal=True, curvature_smoothing="smoothnl"), fpol="const", label="lsn-orth-smoothnl-noBt"), gb.cfg("lsn", dict(orthogonal=True, curvature_smoothing="smoothnl"), fpol="profile", pressure=True, label="lsn-orth-smoothnl")]
     gridrun.run(S, ["file_valid", "file_topology"], FN_W, cfgs=cfgs, name="validity predicate on the grid file of every reference configuration")
     hostile(S)
 
